@@ -147,7 +147,7 @@ structure Ctx (T : Table ν) (G : List (List Name)) (ρ : Env ν) (cs : CS ν) :
   ffiPre : ρ.static.ffi <+: T.ffiAll
   chunks : cs.chunkNames = "<main>" :: (T.funs.take ρ.static.nfuns).map (fun c => c.decl.name)
   nfuns : ρ.static.nfuns ≤ T.funs.length
-  structs : cs.structNames = T.structs.map StructInfo.name
+  structs : cs.structNames <+: T.structs.map StructInfo.name
   curLt : cs.scopeCur.length < 65536
   globLt : cs.scopeGlob.length < 65536
   gnames : ρ.globals.map Prod.fst <+: G
@@ -156,7 +156,7 @@ structure Ctx (T : Table ν) (G : List (List Name)) (ρ : Env ν) (cs : CS ν) :
 theorem Ctx.good {T : Table ν} {G : List (List Name)} {ρ : Env ν} {cs cs' : CS ν} (h : Ctx T G ρ cs)
     (g : Good cs cs') : Ctx T G ρ cs' :=
   ⟨by rw [g.scopeCur, h.cur], by rw [g.scopeGlob, h.glob], by rw [g.functions, h.functions],
-   by rw [g.ffiNames, h.ffi], h.ffiPre, by rw [g.chunkNames, h.chunks], h.nfuns, by rw [g.structNames, h.structs],
+   by rw [g.ffiNames, h.ffi], h.ffiPre, by rw [g.chunkNames, h.chunks], h.nfuns, by rw [g.structNames]; exact h.structs,
    by rw [g.scopeCur]; exact h.curLt, by rw [g.scopeGlob]; exact h.globLt, h.gnames, h.nglob⟩
 
 /-- the compiler state in which the body of the function `c` (number `i` of the table) was compiled -/
@@ -167,7 +167,7 @@ structure FnStart (T : Table ν) (i : Nat) (c : Closure ν) (cs0 : CS ν) : Prop
   functions : cs0.functions = c.static.fnNames
   ffi : cs0.ffiNames = c.static.ffi
   chunks : cs0.chunkNames = "<main>" :: (T.funs.take (i + 1)).map (fun c => c.decl.name)
-  structs : cs0.structNames = T.structs.map StructInfo.name
+  structs : cs0.structNames <+: T.structs.map StructInfo.name
 
 /-- The compiled program `P` is the compilation of the function table `T`: chunk `i + 1` holds the compiled body
     of function `i`, compiled in the scope recorded in its closure; the name tables agree; indices fit 16 bits. -/
